@@ -1,5 +1,5 @@
 CONSTANTS MaxLen = 5
-          Alpha = 1
+          Alpha = 0
 SPECIFICATION Spec
-INVARIANTS ReadingsAgreeInv ParenNeutral
+INVARIANTS CheckAndEmit
 CHECK_DEADLOCK FALSE
